@@ -52,3 +52,9 @@ claim("C14", "fault enumeration: every failure offset x chunking family on scrip
 claim("C17", "bounded-exhaustive enumeration of destination/capability/level arguments + random setter strings, in isolated worker processes",
       "All destinations up to 6/7 tokens over {/ . .. a b}, all capability strings up to 3 tokens, 24 levels x 4 compressors, arbitrary setter strings; no panic/abort, must-be-error classes are errors, successful builds read back.",
       "Definition of 'cannot be split': std::path parent()/file_name() is None.")
+claim("C05", "property-based differential testing of every accessor and typed getter against an independent decoding of generated typed headers",
+      "Generated-input search over well-formed headers in which ~100 tags are absent / properly typed / wrongly typed, tag groups absent, consistent or broken; assets decoded independently. Three-valued where the statement is silent.",
+      "Trusted: refimpl::fmt layout encoder and decoder. Error variants are not checked.")
+claim("C12", "property-based testing of extraction inside a chroot jail with before/after file-system snapshots",
+      "Generated-input search: built packages from consistent trees (positive oracle) and hostile hand-encoded packages ('..', absolute names, symlink-then-file, special types, duplicates); each case extracted by a forked, chrooted child; everything outside the target is snapshotted.",
+      "Containment is judged inside a chroot jail (uid 0); races are out of scope.")
